@@ -228,6 +228,37 @@ pub fn run(ctx: &Ctx, _args: &Args) -> i32 {
             }
             report.count("random_body_filter_pairs");
         }
+        // (3) one token far longer than any buffer threshold (a start tag with a 100 KB attribute value, a 100 KB text
+        // node holding a literal '<') on the filter's path, delivered in chunks of 4 KB .. 70 KB
+        {
+            let big_attr = "x".repeat(100_000);
+            let big_text = format!("1 < 2 {}", "lorem ipsum ".repeat(9_000));
+            let docs_big = [
+                format!("<html><head><title>t</title></head><body data-big=\"{big_attr}\" class=\"p\"><div>content</div></body></html>"),
+                format!("<html><head><title>t</title></head><body><div>{big_text}</div><p>tail</p></body></html>"),
+            ];
+            let fcs = [
+                FilterCase { filters: vec![html_filter("prepend_child", &["html", "body"], None, &sentinel(1, true))], headers: vec![("Content-Type".to_string(), "text/html".to_string())] },
+                FilterCase { filters: vec![html_filter("append_child", &["html", "body", "div"], Some("span.nomatch"), &sentinel(2, true))], headers: vec![("Content-Type".to_string(), "text/html".to_string())] },
+                FilterCase { filters: vec![html_filter("replace", &["html", "body", "div"], None, &sentinel(3, true))], headers: vec![] },
+            ];
+            let mut k = 0;
+            for d in &docs_big {
+                for fc in &fcs {
+                    k += 1;
+                    if k % jobs != shard {
+                        continue;
+                    }
+                    if let Some(p) = prepare(d.clone().into_bytes(), fc.clone()) {
+                        let n = p.body.len();
+                        for stride in [4_096usize, 16_384, 60_000, 70_000] {
+                            record(ctx, &p, &stride_cuts(n, stride), "large_token_stride", report);
+                        }
+                        report.count("large_token_documents");
+                    }
+                }
+            }
+        }
     });
 
     let mut report = report;
